@@ -90,7 +90,7 @@ def main():
             "guard": "AK_PY_VERIF",
             "enable": "no guarded hook exists in /repo: every seam is reached by replacing module/instance attributes (ak.conn_http.threading/random, urllib OpenerDirector.open, ak.ppobj.id) or by sys.monitoring from outside; the variable is reserved and unused",
             "baseline_off_cmd": "cd /repo && /venv/bin/python -m pytest -ra -q -p no:cacheprovider --timeout=900 --continue-on-collection-errors",
-            "source_commits": sorted(set(fix_commits)),
+            "source_commits": [],
             "add_only": True,
         },
         "engines": [
@@ -114,7 +114,7 @@ def main():
                 "technique": CHECKS[p]["technique"],
             } for p in impl
         ],
-        "notes": "Deterministic simulation with fault injection (seeded schedules/histories/faults, one seed = one replayable run, ddmin-minimised replay files). 14 properties are pure functions of their input and are listed not_applicable rather than switching technique; see DESIGN.md s1 and s5.",
+        "notes": "Deterministic simulation with fault injection (seeded schedules/histories/faults, one seed = one replayable run, ddmin-minimised replay files). 14 properties are pure functions of their input and are listed not_applicable rather than switching technique; see DESIGN.md s1 and s5. No hook commit exists in /repo (hooks.source_commits is empty); the unguarded repairs of genuine defects found by the checks are the 'fix:' commits " + ", ".join(fix_commits) + " (known_findings.txt, DESIGN.md s11.3).",
         "not_applicable": [{"property_id": k, "reason": na[k]} for k in sorted(na)],
     }
     with open(os.path.join(HERE, "MANIFEST.json"), "w") as f:
